@@ -70,7 +70,7 @@ def tree_hash(paths, extra=""):
 
 
 DYN_POLICIES = ["fast", "chk", "vec", "map", "ind", "indvec", "indfast", "thr", "old", "prj", "prjmap",
-                "dfr", "dfrh", "dbg", "rel", "rem", "stdd", "stdr", "stdmap"]
+                "dfr", "dfrh", "dbg", "rel", "rem", "stdd", "stdr", "stdmap", "wide", "widemap"]
 
 CXX = os.environ.get("VERIF_CXX", "g++")
 BASE_FLAGS = ["-std=c++17", "-I" + os.path.join(REPO, "include"), "-DYOMM2_VERIF",
@@ -186,7 +186,7 @@ def tlc(module, cfg, env=None, workers=1, timeout=1800, xmx="4g", simulate=None,
     if depth_first:
         jopts.append("-Dtlc2.tool.queue.IStateQueue=StateDeque")
     cmd = ["java"] + jopts + ["-cp", TLC_JAR, "tlc2.TLC", "-workers", str(workers), "-metadir", meta,
-                              "-config", cfg, "-noGenerateSpecTE"]
+                              "-config", cfg, "-noGenerateSpecTE", "-maxSetSize", "20000000"]
     if simulate:
         cmd += ["-simulate", simulate]
     cmd += list(extra) + [module]
